@@ -287,6 +287,7 @@ inductive Out
   | entry (size : Nat)
   | unlinked (removed : Bool)
   | pair (r : Res) (hooked : Option (Option Digest × Res))   -- linkR: Link's result, the hooked Resolve's
+  | many (rs : List Res)                                     -- session: one result per Chunker.Put
   deriving DecidableEq, Repr
 
 /-- `Put(d, r, size)` -/
@@ -479,6 +480,32 @@ def chunk (hash : Bytes → Digest) (k : Disk) (d : Digest) (size start stop : N
   let r := chunkEffs hash (k.blob d) size start stop cd s
   (k.setBlob d (run r.1 (k.blob d)), r.2)
 
+/-- one `Chunker.Put(Chunk{start, stop}, cd, r)` -/
+structure CPut where
+  start : Nat
+  stop : Nat
+  cd : Digest
+  s : Script
+  deriving Repr
+
+/-- the writes of one `Chunker.Put` on an OPEN chunker (no stat, no open: those happened once, in `Chunked`) -/
+def chunkPutEffs (hash : Bytes → Digest) (c : CPut) : List Eff × Res :=
+  let n := c.stop - c.start + 1
+  let lim := limitChunks n c.s.chunks c.s.fin
+  copyLoop hash c.cd n c.start [] lim.1 lim.2
+
+/-- a chunker SESSION (round 7: state reused across calls): one `Chunked(d, size)` — the only stat; a file of that
+    size makes every later `Put` a no-op ("pre-validated") — then any number of `Chunker.Put`s on the one open file,
+    then `Close`.  `chunkEffs` is the session with a single `Put` (`C08.session_single`). -/
+def sessionEffs (hash : Bytes → Digest) (st : FileSt) (size : Nat) (puts : List CPut) : List Eff × List Res :=
+  if st.map List.length = some size then ([], puts.map fun _ => .ok)
+  else (.openCreate false :: (puts.flatMap fun c => (chunkPutEffs hash c).1) ++ [.close],
+        puts.map fun c => (chunkPutEffs hash c).2)
+
+def session (hash : Bytes → Digest) (k : Disk) (d : Digest) (size : Nat) (puts : List CPut) : Disk × List Res :=
+  let r := sessionEffs hash (k.blob d) size puts
+  (k.setBlob d (run r.1 (k.blob d)), r.2)
+
 inductive Op
   | put (d : Digest) (size : Nat) (s : Script)
   | importB (size : Nat) (s : Script)
@@ -490,6 +517,7 @@ inductive Op
   | chunk (d : Digest) (size start stop : Nat) (cd : Digest) (s : Script)
   | putNeg (d : Digest) (s : Script)      -- Put under a negative size
   | edit (name : Bytes) (data : Bytes)    -- manifest file written behind the cache's back
+  | session (d : Digest) (size : Nat) (puts : List CPut)   -- Chunked + several Chunker.Put + Close
   deriving Repr
 
 /-- does `testHookBeforeFinalWrite` fire inside `Link(name, d)`?  Iff the copy into the temporary file is reached,
@@ -523,6 +551,7 @@ def stepOp (hash : Bytes → Digest) (fixed zc : Bool) (k : Disk) : Op → Disk 
   | .chunk d size a b cd s => let r := chunk hash k d size a b cd s; (r.1, .res r.2)
   | .putNeg d s => let r := putNeg false k d s; (r.1, .res r.2)
   | .edit name data => let r := edit k name data; (r.1, .res r.2)
+  | .session d size puts => let r := session hash k d size puts; (r.1, .many r.2)
 
 def runOps (hash : Bytes → Digest) (fixed zc : Bool) : List Op → Disk → Disk × List Out
   | [], k => (k, [])
